@@ -239,8 +239,8 @@ func scenario(w *vt.Writer, t *conc.Target, ops []*op, G, K int, sc int) {
 			var out []byte
 			var err error
 			pan, _ := vt.Try(func() { out, err = r.op.inv(r.out, r.msg) })
-			e := vt.Ev{"ev": "inv", "of": fmt.Sprintf("%d.%d", g, i), "op": r.op.invName, "in": vt.Hex(r.out), "out": vt.Hex(out),
-				"err": err != nil || pan, "msg": vt.Hex(r.msg)}
+			e := vt.Ev{"ev": "inv", "of": fmt.Sprintf("%d.%d", g, i), "op": r.op.invName, "in": hexOrDigest(r.out), "out": hexOrDigest(out),
+				"err": err != nil || pan, "msg": hexOrDigest(r.msg)}
 			w.Emit(e)
 		}
 	}
